@@ -526,16 +526,19 @@ def run : World → List Event → World × List Out
 /-! ## table normalisation (driver performance only)
 
 `upd` builds closure chains; the driver re-tabulates the maps after every event.  Both functions
-are the identity (`Proofs.tab8_eq`, `Proofs.tabNodes_eq`). -/
+are the identity (`Proofs.ofTable_tabulate`, `Proofs.tabNodes_eq`). -/
 
-def tab8Aux {β : Type} (a0 a1 a2 a3 a4 a5 a6 a7 : β) (f : Nat → β) : Nat → β := fun i =>
-  match i with
-  | 0 => a0 | 1 => a1 | 2 => a2 | 3 => a3 | 4 => a4 | 5 => a5 | 6 => a6 | 7 => a7
-  | _ => f i
+/-- the first eight values as a list (a fully applied call: evaluated eagerly) -/
+def tabulate {β : Type} (f : Nat → β) : List β := [f 0, f 1, f 2, f 3, f 4, f 5, f 6, f 7]
 
-def tab8 {β : Type} (f : Nat → β) : Nat → β := tab8Aux (f 0) (f 1) (f 2) (f 3) (f 4) (f 5) (f 6) (f 7) f
+def ofTable {β : Type} (l : List β) (f : Nat → β) : Nat → β := fun i =>
+  match l[i]? with
+  | some v => v
+  | none => f i
 
-def Node.tab (nd : Node) : Node := ⟨nd.addr, tab8 nd.alive, tab8 nd.fail, tab8 nd.tfail⟩
+def Node.tab (nd : Node) : Node :=
+  ⟨nd.addr, ofTable (tabulate nd.alive) nd.alive, ofTable (tabulate nd.fail) nd.fail,
+    ofTable (tabulate nd.tfail) nd.tfail⟩
 
 def tabNodesAux (l : List (Nat × Node)) (f : Nat → Node) : Nat → Node := fun n =>
   match l.find? fun e => e.1 == n with
